@@ -14,6 +14,7 @@ import (
 	"sync"
 
 	"golang.org/x/mod/module"
+	"golang.org/x/mod/semver"
 
 	"github.com/pgavlin/dawn/internal/project"
 	"github.com/pgavlin/dawn/internal/vcs"
@@ -204,6 +205,23 @@ func (r *Resolver) resolveProject(ctx context.Context, p module.Version) (*mvsPr
 	return summaryV.(*mvsProject), nil
 }
 
+// taggedVersions returns the versions a repository has tagged, in the repository's order. Tags that are valid but not
+// canonical semantic versions (v1.3, v1.3.0+build) are ignored, as the go command ignores them: a requirement cannot
+// name such a version (the project file loader rejects it), so no query may resolve to one.
+func taggedVersions(ctx context.Context, repo vcs.Repository) ([]*vcs.Version, error) {
+	all, err := repo.Versions(ctx)
+	if err != nil {
+		return nil, err
+	}
+	versions := make([]*vcs.Version, 0, len(all))
+	for _, v := range all {
+		if semver.IsValid(v.Version.Version) && semver.Canonical(v.Version.Version) == v.Version.Version {
+			versions = append(versions, v)
+		}
+	}
+	return versions, nil
+}
+
 func (r *Resolver) listVersions(ctx context.Context, p module.Version) ([]module.Version, error) {
 	versionsV, ok := r.projectVersions.Load(p.String())
 	if ok {
@@ -214,13 +232,13 @@ func (r *Resolver) listVersions(ctx context.Context, p module.Version) ([]module
 	if err != nil {
 		return nil, err
 	}
-	taggedVersions, err := repo.Versions(ctx)
+	tagged, err := taggedVersions(ctx, repo)
 	if err != nil {
 		return nil, err
 	}
 
 	var versions []module.Version
-	for _, v := range taggedVersions {
+	for _, v := range tagged {
 		if v.Version.Path == p.Path {
 			versions = append(versions, v.Version)
 		}
